@@ -1,5 +1,4 @@
 import Witverif.Abi.CProfile
-import Witverif.Proofs.Heck
 /-! C11: the generated free helpers (model `cFrees`) free exactly the owned buffers; the dtor name. -/
 namespace Witverif.Abi.CProfile
 open Witverif.Abi Witverif.Abi.CProfileSpec
@@ -120,35 +119,3 @@ end
 
 end Witverif.Abi.CProfile
 
-namespace Witverif.Abi.CProfile
-open Witverif.Text.Heck
-
-theorem map_sepU_eq_self (n : List Char) : n.map sepU = n ↔ ∀ c ∈ n, isAlnum c = true ∨ c = '_' := by
-  induction n with
-  | nil => simp
-  | cons c cs ih =>
-    simp only [List.map_cons, List.cons.injEq, ih, List.mem_cons, forall_eq_or_imp]
-    constructor
-    · rintro ⟨h1, h2⟩
-      refine ⟨?_, h2⟩
-      unfold sepU at h1
-      split at h1
-      · left; assumption
-      · right; exact h1.symm
-    · rintro ⟨h1, h2⟩
-      refine ⟨?_, h2⟩
-      unfold sepU
-      rcases h1 with h | h
-      · simp [h]
-      · subst h; decide
-
-/-- on a simple (lower-case kebab) resource name the generated destructor export name is the
-spec's exactly when the name has no separator to rewrite -/
-theorem cDtorExportName_eq_iff (module name : List Char) (hs : simpleTail true name = true) :
-    cDtorExportName module name = CProfileSpec.dtorExportName module name ↔
-      ∀ c ∈ name, isAlnum c = true ∨ c = '_' := by
-  unfold cDtorExportName CProfileSpec.dtorExportName
-  rw [snake_simple name hs, List.append_right_inj]
-  exact map_sepU_eq_self name
-
-end Witverif.Abi.CProfile
